@@ -17,9 +17,10 @@ if [ -d $W ]; then
   cp SEED_NOTES.md $V/seeded/$ID/SEED_NOTES.md 2>/dev/null
   suite=$(PYTHONPATH=$W /venv/bin/python -m pytest -q -p no:cacheprovider tests 2>&1 | grep -E "passed|failed" | tail -1)
   PYTHONPATH=$W /venv/bin/python -W ignore demo.py > /tmp/demo-$ID-with.log 2>&1; with=$?
-  git stash -q
+  # (no `git stash`: the stash is shared by all worktrees of a repository)
+  git apply -R $V/seeded/$ID/patch.diff
   PYTHONPATH=$W /venv/bin/python -W ignore demo.py > /tmp/demo-$ID-without.log 2>&1; without=$?
-  git stash pop -q
+  git apply $V/seeded/$ID/patch.diff
   echo "suite_with_change: $suite | demo with change exit=$with | demo without change exit=$without"
   conf="{\"suite_with_change\":\"$suite\",\"demo_exit_with_change\":$with,\"demo_exit_without_change\":$without}"
 fi
